@@ -274,20 +274,26 @@ func targetFrames(data []byte) error {
 	if len(data) < frameCtl {
 		return nil
 	}
+	deep, err := execFrames(data)
 	o, stream := decodeFrameOpts(data)
 	entry := frameEntries[o.entry]
-	var deep bool
-	err := guard(entry, func() error {
-		var e error
-		deep, e = runFrames(o, stream)
-		return e
-	})
 	note("frames", entry, deep, data)
 	if err != nil {
 		return fmt.Errorf("%v\nentry=%s state=%#x utf8=%v ext=%v inflate=%v max=%d skip=%v handle=%v discard=%v chunks=%v eofWithData=%v\nstream=%x",
 			err, entry, uint8(o.state), o.utf8, o.ext, o.inflate, o.max, o.skip, o.handle, o.discard, o.chunks, o.eofData, stream)
 	}
 	return nil
+}
+
+// execFrames is targetFrames without the evidence bookkeeping.
+func execFrames(data []byte) (deep bool, err error) {
+	o, stream := decodeFrameOpts(data)
+	err = guard(frameEntries[o.entry], func() error {
+		var e error
+		deep, e = runFrames(o, stream)
+		return e
+	})
+	return deep, err
 }
 
 func runFrames(o frameOpts, stream []byte) (deep bool, err error) {
@@ -327,6 +333,9 @@ func runFrames(o frameOpts, stream []byte) (deep bool, err error) {
 		deep = n > 0
 
 	case "ReadMessage":
+		if err := preCheck(o, stream, what); err != nil {
+			return true, err
+		}
 		n := 0
 		var msgs []wsutil.Message
 		for {
@@ -344,6 +353,9 @@ func runFrames(o frameOpts, stream []byte) (deep bool, err error) {
 		deep = n > 0
 
 	case "ReadData":
+		if err := preCheck(o, stream, what); err != nil {
+			return true, err
+		}
 		n := 0
 		for {
 			if _, _, e := wsutil.ReadData(tx.RW{Reader: src, Writer: rec}, o.state); e != nil {
@@ -380,6 +392,22 @@ func runFrames(o frameOpts, stream []byte) (deep bool, err error) {
 		}
 	}
 	return deep, srcOracle(what, src, rec)
+}
+
+// preCheck drives a wsutil.Reader configured the way ReadMessage / ReadData
+// configure theirs with the harness's own read loop, which notices a Read
+// that keeps returning (0, nil) without touching the transport. Those helpers
+// read with io.ReadAll-style loops of their own, where the same defect is an
+// endless spin that no counter of the harness can see; an input that stalls
+// here is reported and never handed to them.
+func preCheck(o frameOpts, stream []byte, entry string) error {
+	p := frameOpts{state: o.state, utf8: true, handle: true, bufSize: 512, chunks: o.chunks, eofData: o.eofData}
+	src := tx.NewSrc(stream, p.chunks)
+	src.EOFWithData = p.eofData
+	if _, err := runReader(p, src, newRec(len(stream))); err != nil {
+		return fmt.Errorf("%v (seen with a wsutil.Reader configured as %s configures it; %s itself was not called with this input)", err, entry, entry)
+	}
+	return nil
 }
 
 // errStall is returned by the harness's read loops.
